@@ -23,7 +23,7 @@ from optilint.model import dotted, FuncVal, walk_local
 from optilint.core import Incomplete
 from optilint.expr import Algebra, NotPolynomial, Rat, Poly
 from optilint.absdom import SignEnv, is_nonpos, TOP
-from .common import src, expand, canon, same, calls_in, single_def, def_value, const_value, actual, cond_atoms
+from .common import return_normal_form, normal_form, sem_same, src, expand, canon, same, calls_in, single_def, def_value, const_value, actual, cond_atoms
 
 LEVEL = "other"
 RULE_TEXT = ("obligations = (projection helper x norm identity) + (labelled exit x guard/point) + (recurrence x form/currentness) + "
@@ -41,14 +41,14 @@ TE = "optimism.treigen.treigen"
 def run(ctx):
     for m in (ES, ESS, TE):
         ctx.need_module(m)
-    d1_projections(ctx)
-    d1_recurrences(ctx)
-    d1_exits(ctx)
-    d2_dogleg(ctx)
-    d2_cauchy(ctx)
-    d3_types(ctx)
-    d3_hard_case_multiplier(ctx)
-    d3_pole_offset(ctx)
+    ctx.guard(d1_projections, ctx)
+    ctx.guard(d1_recurrences, ctx)
+    ctx.guard(d1_exits, ctx)
+    ctx.guard(d2_dogleg, ctx)
+    ctx.guard(d2_cauchy, ctx)
+    ctx.guard(d3_types, ctx)
+    ctx.guard(d3_hard_case_multiplier, ctx)
+    ctx.guard(d3_pole_offset, ctx)
     ctx.trust("numpy.linalg.eigh returns eigenvalues ascending and eigenvectors as COLUMNS of the second result")
     ctx.trust("Gould, Lucidi, Roma, Toint (1999) recurrences for <z,d>_M and <d,d>_M in preconditioned CG")
     ctx.assume("trust-region radius > 0")
@@ -83,15 +83,17 @@ def d1_projections(ctx):
             ctx.undecided(rule, sc, None, construct="returns", detail=f"{len(rets)} returns")
             continue
         r = rets[0]
-        tau = _tau_of_return(r.ast.value, zn, dn)
+        # normal form of the return value: locals expanded (z, d kept), small helpers / sibling projections inlined
+        ret_nf = return_normal_form(sc, stop=(zn, dn))
+        tau = _tau_of_return(ret_nf, zn, dn) if ret_nf is not None else None
         if tau is None:
             ctx.refuted(rule, sc, r.ast, construct="returns-z+tau*d",
-                        detail=f"returns `{src(r.ast.value)}`, not {zn} + tau*{dn}: the result does not lie on the ray from z along d")
+                        detail=f"returns `{src(ret_nf if ret_nf is not None else r.ast.value)[:160]}`, not {zn} + tau*{dn}: the result does not lie on the ray from z along d")
             continue
         lin = {op: "M"} if op else {}
         A = Algebra(vector_atoms={zn, dn}, linear_ops=lin)
         try:
-            tau_e = expand(cfg, r, tau, stop=(zn, dn))
+            tau_e = tau
             T = A.lower(tau_e)
             # the inner products the caller's zz belongs to
             if len(ps) >= 6 and op is None and "zd" in ps:
@@ -109,8 +111,8 @@ def d1_projections(ctx):
             ok, detail, bad = None, "", f"cannot normalise: {ex}"
         ctx.decide(rule, ok, sc, r.ast, construct="norm-of-result-is-radius", detail=detail, bad_detail=bad)
         # the positive root is taken: tau = (+sqrt(.) - zd)/dd
-        pos = "np.sqrt" in src(tau) or "np.sqrt" in src(expand(cfg, r, tau, stop=(zn, dn)))
-        te = expand(cfg, r, tau, stop=(zn, dn))
+        pos = "np.sqrt" in src(tau)
+        te = tau
         negroot = False
         for n in ast.walk(te):
             if isinstance(n, ast.UnaryOp) and isinstance(n.op, ast.USub) and isinstance(n.operand, ast.Call) and (dotted(n.operand.func) or "").endswith("sqrt"):
@@ -275,7 +277,9 @@ def d1_exits(ctx):
             if lab in ("boundary", "negcurve"):
                 # point: projection of the current z along the current d
                 pe = expand(cfg, r, first, depth=1) if isinstance(first, ast.Name) else first
-                okp = isinstance(pe, ast.Call) and isinstance(pe.func, ast.Name) and pe.func.id in proj_names
+                from .common import unwrap_call
+                pe = unwrap_call(pe, sc, stop_names=proj_names)
+                okp = isinstance(pe, ast.Call) and (dotted(pe.func) or "").split(".")[-1] in proj_names
                 shown = src(pe)
                 okargs = False
                 if okp:
